@@ -48,6 +48,9 @@ ALPHABET = [
     ("wcerr", frame(SPA_ID, CLIENT_ID, b"WCERR"), "ok"),
     ("unknown-verb", frame(SPA_ID, CLIENT_ID, b"ZZTOP\x01\x02"), "ok"),
     ("bare-unknown", b"\x00\x01garbage", "bare"),
+    # content / datagrams that are not text at all (bytes >= 0x80 from the first byte on)
+    ("unknown-nonascii", frame(SPA_ID, CLIENT_ID, b"\xff\xfe\x80\xc3\x28\x01\x02"), "ok"),
+    ("bare-nonascii", b"\xc3\x28\xa0\xa1\xff binary", "bare"),
     ("hello", b"<HELLO>1</HELLO>", "bare"),
     ("statp-wrong-src", frame(OTHER, CLIENT_ID, STATP), "misaddressed"),
     ("statp-wrong-dst", frame(SPA_ID, OTHERC, STATP), "misaddressed"),
